@@ -26,9 +26,12 @@ MODULE = "LinkedSurveys"
 SPEC_DIR = "survey"
 
 # cfg files per tier: <pair>_<flavour>.cfg, see spec/survey/gen_cfgs.py for how they were written
-FLAVOURS = {"quick": ["qs", "qe"], "thorough": ["ts", "te"]}
-NEGATIVE = [("ATEM_asbuilt.cfg", {"WriteThrough", "EditIsLocal"}),
-            ("LLFEM_asbuilt.cfg", {"TxIdKept"})]
+FLAVOURS = {"quick": ["qs", "qe"], "thorough": ["qs", "qe", "ts", "te"]}
+NEGATIVE = [("ATEM_asbuilt.cfg", {"WriteThrough", "EditIsLocal"}),      # WaveformAliased
+            ("LLFEM_asbuilt.cfg", {"TxIdKept"}),                        # LinkFromTxDropsTxId
+            ("MLFEM_asbuilt.cfg", {"WriteThrough", "RefusedIsNoop", "ValidEditsAccepted"}),  # InputTypeSetterMLFEM, LoopRadiusNone...
+            ("TIP_asbuilt.cfg", {"ValidEditsAccepted"}),                # UnitSetterTIP
+            ("TIP1_asbuilt.cfg", {"RefusedIsNoop", "CopyCopiesPartner", "ValidEditsAccepted"})]  # TipperSingleBaseMaskedCopy
 
 SIGNATURES = {
     "WaveformAliased": "copy-shares-waveform-dict-with-source",
@@ -874,7 +877,7 @@ def run(tier, seed):  # pylint: disable=too-many-locals,too-many-statements
             "negative_controls": negs,
             "rule": "per class pair TLC explores every history of LinkFrom/Edit/Copy/Reopen within the cfg bounds, "
                     "checks Mutual, BothIds, SharedEqual, TxIdKept, WriteThrough, Resolvable, CopiesPaired, GroupsExact "
-                    "and the action properties LinkSticks, ReopenResolves, CopyCopiesPartner, EditIsLocal, RefusedIsNoop, "
+                    "and the action properties LinkSticks, ReopenResolves, CopyCopiesPartner, EditIsLocal, RefusedIsNoop, ValidEditsAccepted, "
                     "and exports the state graph; every edge is replayed (path cover) on survey objects in .geoh5 files "
                     "and after every action live metadata, raw Metadata JSON (plain h5py), partner getters, geometry "
                     "and loop references of every entity are compared with the state TLC computed; a replay stops at "
